@@ -1,9 +1,11 @@
 mod builtins;
 mod runtime;
+mod secret_env;
 
 #[cfg(rip_verif)]
 pub use builtins::verif;
 pub use builtins::{register_builtin_tools, BuiltinToolConfig};
+pub use secret_env::{register_secret_env_names, secret_env_names, PROVIDER_KEY_ENV_VARS};
 pub use runtime::{
     CheckpointHook, CheckpointRecord, CheckpointRequest, CheckpointRewindRecord, ToolHandler,
     ToolInvocation, ToolOutput, ToolRegistry, ToolRunner,
